@@ -312,6 +312,7 @@ def run(case, max_steps=120000):
             else:
                 buf = A.buffer_until_timeout(func, timeout=T)
             state['buf'] = buf
+            state['loop'] = loop
             if case.get('other'):
                 buf2 = A.buffer_until_timeout(func2, timeout=T)
                 w.keep.append(buf2)
@@ -346,8 +347,24 @@ def run(case, max_steps=120000):
 
             def run_f():
                 sim.block_until(lambda: state['ready'], what='buffer-ready')
+                mode = case.get('foreign_mode', 'loop')
                 try:
-                    aio.run(fmain())
+                    if mode == 'loop':
+                        aio.run(fmain())
+                    else:
+                        # a plain thread without a running loop; 'plain-setloop': it has made the buffer's loop its
+                        # *current* loop (set_event_loop) although that loop runs in the owner's thread
+                        if mode == 'plain-setloop':
+                            aio.set_event_loop(state['loop'])
+                        try:
+                            for op in prog:
+                                if op.get('gap'):
+                                    sim.sleep(op['gap'])
+                                if op['op'] in ('call', 'map'):
+                                    submit(state['buf'], op, 'F%d' % i)
+                        finally:
+                            if mode == 'plain-setloop':
+                                aio.set_event_loop(None)
                 finally:
                     state['foreign_done'] += 1
             return run_f
